@@ -46,7 +46,7 @@ func funcsInFiles(c *Ctx, files []string) []*ssa.Function {
 		if !fn.Pos().IsValid() || fn.Parent() != nil || len(fn.Blocks) == 0 || strings.HasPrefix(fn.Name(), "init") {
 			continue
 		}
-		file := strings.TrimPrefix(c.P.SSA.Fset.Position(fn.Pos()).Filename, "/repo/")
+		file := strings.TrimPrefix(c.P.SSA.Fset.Position(fn.Pos()).Filename, repoDir+"/")
 		if want[file] && fn.Name() != "Place" {
 			out = append(out, fn)
 		}
